@@ -276,7 +276,7 @@ pub fn parse_currency(input: &str) -> Result<String, ParseError> {
         });
     }
 
-    if !input.chars().all(|c| c.is_uppercase()) {
+    if !input.chars().all(|c| c.is_ascii_uppercase()) {
         return Err(ParseError::InvalidFormat {
             message: "Currency code must be uppercase letters".to_string(),
         });
